@@ -107,4 +107,55 @@ MUTANTS = [
             table = self.copy()
 
         if axis == 'whole':""", ["C07"]),
+ ("c01-ids-latin1", T, """                                   data=[i.encode('utf8') for i in ids],""", """                                   data=[i.encode('latin-1', 'replace') for i in ids],""", ["C01", "C04"]),
+ ("c01-md-reversed", T, """                           data=[m[header].encode('utf8') for m in md],""", """                           data=[m[header].encode('utf8') for m in md][::-1],""", ["C01", "C04"]),
+ ("c01-no-slash-unescape", T, """                category = category.replace('@@SLASH@@', '/')
+                parse_f = parser[category]""", """                parse_f = parser[category]""", ["C01"]),
+ ("c01-type-empty-string", T, """        type_ = None if h5grp.attrs['type'] == '' else h5grp.attrs['type']""", """        type_ = h5grp.attrs['type']""", ["C01"]),
+ ("c01-swap-id-generatedby", T, """        h5grp.attrs['generated-by'] = generated_by
+        if creation_date is None:""", """        h5grp.attrs['generated-by'] = h5grp.attrs['id']
+        if creation_date is None:""", ["C01", "C04"]),
+ ("c01-indices-int16-uncompressed", T, """            grp.create_dataset('matrix/indices', shape=(len_data,),
+                               dtype=np.int32,""", """            grp.create_dataset('matrix/indices', shape=(len_data,),
+                               dtype=np.int32 if compression else np.int8,""", ["C04"]),
+ ("c01-float32-data", T, """            grp.create_dataset('matrix/data', shape=(len_data,),
+                               dtype=np.float64,""", """            grp.create_dataset('matrix/data', shape=(len_data,),
+                               dtype=np.float32,""", ["C01", "C04"]),
+ ("c01-groupmd-dropped-obs", T, """            group_md = self.group_metadata(axis)
+""", """            group_md = self.group_metadata(axis) if axis == 'sample' else None
+""", ["C01", "C04"]),
+ ("c04-csc-gets-csr-indices", T, """            self._data = self._data.asformat(order)
+
+            ids = self.ids(axis=axis)""", """            self._data = self._data.asformat('csr')
+
+            ids = self.ids(axis=axis)""", ["C04", "C01"]),
+ ("c04-shape-transposed", T, """        h5grp.attrs['shape'] = self.shape""", """        h5grp.attrs['shape'] = self.shape[::-1]""", ["C04"]),
+ ("c04-no-group-metadata-group", T, """            grp.create_group('group-metadata')
+
+            if group_md:""", """            if group_md:
+                grp.create_group('group-metadata')
+            if group_md:""", ["C04"]),
+ # ("c04-nnz-stale": nnz attribute from the raw stored count) is equivalent on
+ # the repaired tree: stored zeros are eliminated at construction.
+ ("c04-indptr-int64", T, """            grp.create_dataset('matrix/indptr', shape=(len_indptr,),
+                               dtype=np.int32,""", """            grp.create_dataset('matrix/indptr', shape=(len_indptr,),
+                               dtype=np.int64,""", ["C04"]),
+ ("c02-triple-swapped", T, """"[%d,%d,%r]" % (obs_index, col_index, float(val))""", """"[%d,%d,%r]" % (col_index, obs_index, float(val))""", ["C02"]),
+ ("c02-value-percent-f", T, """"[%d,%d,%r]" % (obs_index, col_index, float(val))""", """"[%d,%d,%f]" % (obs_index, col_index, val)""", ["C02"]),
+ ("c02-value-percent-g", T, """"[%d,%d,%r]" % (obs_index, col_index, float(val))""", """"[%d,%d,%.15g]" % (obs_index, col_index, val)""", ["C02"]),
+ ("c02-directio-drops-type", T, """        if direct_io:
+            direct_io.write(type_)
+""", """        if direct_io:
+            pass
+""", ["C02"]),
+ ("c02-id-not-escaped", T, """                    f'{{"id": {dumps(obs[1])}, "metadata": {dumps(obs[2])}}},'""", """                    f'{{"id": "{obs[1]}", "metadata": {dumps(obs[2])}}},'""", ["C02"]),
+ ("c02-fromjson-columns-twice", T, """        obs_ids = [row['id'] for row in json_table['rows']]
+        obs_metadata = [row['metadata'] for row in json_table['rows']]""", """        obs_ids = [row['id'] for row in json_table['rows']]
+        obs_metadata = [row['metadata'] for row in json_table['columns']]""", ["C02"]),
+ ("c02-generatedby-unescaped", T, """            generated_by = '"generated_by": %s,' % dumps(generated_by)""", """            generated_by = '"generated_by": "%s",' % generated_by""", ["C02"]),
+ ("c02-date-dropped-on-read", T, """                create_date = datetime.fromisoformat(json_table['date'])""", """                create_date = datetime.fromisoformat(json_table['date'][:10])""", ["C02"]),
+ ("c02-npencoder-float32-str", T, """        if isinstance(obj, np.floating):
+            return float(obj)""", """        if isinstance(obj, np.floating):
+            return float(str(obj))""", ["C02"]),
+ ("c03-gz-reader-latin1", "biom/util.py", """            return codecs.getreader('utf-8')(gzip_open(fp, mode))""", """            return codecs.getreader('latin-1')(gzip_open(fp, mode))""", ["C03"]),
 ]
